@@ -11,3 +11,4 @@ import ShkModel.Props.C04
 import ShkModel.Props.C05
 import ShkModel.Props.C07
 import ShkModel.Props.C16
+import ShkModel.Props.C19
